@@ -58,13 +58,43 @@ func anyRouter(*http.Request, *types.Context) bool { return true }
 // 前一个对象返回的实例将作为下一个对象的输入参数。
 func AndMatcher(m ...Matcher) Matcher {
 	return MatcherFunc(func(r *http.Request, ctx *types.Context) bool {
-		for _, mm := range m {
+		// 前面的对象可能已经修改了 r 和 ctx，如果之后的对象不匹配，需要恢复这些修改，
+		// 否则违反了 [Matcher.Match] 返回 false 时不应修改参数的约定。
+		path := r.URL.Path
+		var params map[string]string
+		if ctx.Count() > 0 {
+			params = make(map[string]string, ctx.Count())
+			ctx.Range(func(k, v string) { params[k] = v })
+		}
+
+		for i, mm := range m {
 			if !mm.Match(r, ctx) {
+				if i > 0 {
+					restoreMatch(r, ctx, path, params)
+				}
 				return false
 			}
 		}
 		return true
 	})
+}
+
+// 将 r 和 ctx 恢复到匹配之前的状态
+func restoreMatch(r *http.Request, ctx *types.Context, path string, params map[string]string) {
+	r.URL.Path = path
+
+	var dels []string
+	ctx.Range(func(k, _ string) {
+		if _, found := params[k]; !found {
+			dels = append(dels, k)
+		}
+	})
+	for _, k := range dels {
+		ctx.Delete(k)
+	}
+	for k, v := range params {
+		ctx.Set(k, v)
+	}
 }
 
 // OrMatcher 仅需符合一个要求
